@@ -245,6 +245,11 @@ class Filtration(SimplicialComplex):
         :param id: (optional) name for the simplex
         :param attr: (optional) dict of attributes
         :returns: the name of the new simplex'''
+        # the faces must be in the filtration at this index
+        for f in fs:
+            if self.containsSimplexAtSomeIndex(f) and f not in self:
+                raise ValueError(f'Face {f} is not in the filtration at index {self.getIndex()}')
+
         nid = super().addSimplex(fs, id, attr)
         ind = self.getIndex()
         self._appears[nid] = ind
